@@ -26,6 +26,7 @@ partial def qDumpJ : J → String
   | .null => "n"
   | .bool b => if b then "t" else "f"
   | .num i => "i" ++ toString i
+  | .frac n d => "r" ++ toString n ++ "/" ++ toString d
   | .str s => "s" ++ qHex s
   | .arr xs => "[ " ++ " ".intercalate (xs.map qDumpJ) ++ " ]"
   | .obj fs => "{ " ++ " ".intercalate (fs.map (fun kv => "k" ++ qHex kv.1 ++ " " ++ qDumpJ kv.2)) ++ " }"
@@ -78,16 +79,17 @@ def handleQuery (cmd : String) (rest : List String) : Option String :=
       | none => some "bad-op"
     | _ => some "bad-op"
   | "qeval" =>
-    -- qeval <mode> <hexquery> <ndocs> <forest>… ; mode c = classes only, j = with the JSON value
+    -- qeval <mode> <year> <hexquery> <ndocs> <forest>… ; mode c = classes only, j = with the JSON
+    -- value; <year> is the current year (IsLiving)
     match rest with
-    | mode :: h :: docToks =>
-      match fromHex h, qParseDocs docToks with
-      | some s, some docs =>
+    | mode :: year :: h :: docToks =>
+      match fromHex h, qParseDocs docToks, year.toNat? with
+      | some s, some docs, some now =>
         match parse s with
         | .syntaxError => some "parse-error"
         | .ok eng =>
           let fuel := defaultFuel docs eng
-          let raw := evalRaw Generated.Query.cycleGuard fuel docs eng
+          let raw := evalRaw now Generated.Query.cycleGuard fuel docs eng
           let top := recoverOutcome Generated.Query.evaluateRecovers raw
           let fmts := match top with
             | .ok v => ",".intercalate (["json", "pretty-json", "csv", "gedcom", "html"].map (fun f => (formatOutcome qFmtFlags f v).cls))
@@ -98,7 +100,7 @@ def handleQuery (cmd : String) (rest : List String) : Option String :=
                | _ => "")
             else ""
           some s!"raw={qOutcomeDetail raw} top={top.cls} fmt={fmts}{js}"
-      | _, _ => some "bad-op"
+      | _, _, _ => some "bad-op"
     | _ => some "bad-op"
   | "qnum" =>
     -- qnum <op> <hexleft> <hexright>: the operator functions on two strings
